@@ -145,6 +145,25 @@ func payload(p string) []byte {
 	return []byte(`{"v":`)
 }
 
+// route unescapes %xx (raw bytes, used to send routes that are not valid UTF-8)
+func route(r string) string {
+	if !strings.Contains(r, "%") {
+		return r
+	}
+	var b []byte
+	for i := 0; i < len(r); i++ {
+		if r[i] == '%' && i+2 < len(r) {
+			if v, err := strconv.ParseUint(r[i+1:i+3], 16, 8); err == nil {
+				b = append(b, byte(v))
+				i += 2
+				continue
+			}
+		}
+		b = append(b, r[i])
+	}
+	return string(b)
+}
+
 func (w *world) collect() string {
 	var rs, is []string
 	for i, c := range w.clients {
@@ -228,7 +247,7 @@ func (w *world) exec(op string) string {
 			if e1 != nil || e2 != nil || ci < 0 || ci >= len(w.clients) {
 				return "bad-op"
 			}
-			pk := w.clients[ci].Packet(&message.Message{Type: message.Request, ID: uint(id), Route: f[2], Data: payload(f[3])})
+			pk := w.clients[ci].Packet(&message.Message{Type: message.Request, ID: uint(id), Route: route(f[2]), Data: payload(f[3])})
 			if _, seen := frames[ci]; !seen {
 				order = append(order, ci)
 			}
@@ -270,7 +289,7 @@ func (w *world) exec(op string) string {
 			if err != nil {
 				continue
 			}
-			frame = append(frame, c.Packet(&message.Message{Type: message.Request, ID: uint(id), Route: f[2], Data: payload(f[3])})...)
+			frame = append(frame, c.Packet(&message.Message{Type: message.Request, ID: uint(id), Route: route(f[2]), Data: payload(f[3])})...)
 		}
 		ok = c.SendRaw(frame) && ok
 		early = early && c.NetId() == 0 // still not registered after everything was read
@@ -307,6 +326,28 @@ func (w *world) exec(op string) string {
 			}
 		})
 		return "ok"
+	case "flood":
+		// the client stops reading, n requests are written back-to-back (more responses than the
+		// session's send queue holds pile up behind the stalled connection), the client resumes
+		i, n, id0, v0 := hx.KVInt(ws, "c"), hx.KVInt(ws, "n"), hx.KVInt(ws, "id0"), hx.KVInt(ws, "v0")
+		rt, _ := hx.KV(ws, "route")
+		if i >= len(w.clients) || n <= 0 || n > 50000 {
+			return "bad-op"
+		}
+		c := w.clients[i]
+		var frame []byte
+		for k := 0; k < n; k++ {
+			frame = append(frame, c.Packet(&message.Message{Type: message.Request, ID: uint(id0 + k), Route: route(rt),
+				Data: []byte(fmt.Sprintf(`{"v":%d}`, v0+k))})...)
+		}
+		c.Stall()
+		done := make(chan bool, 1)
+		go func() { done <- c.Write(frame) }()
+		w.n.Wait() // everything that can happen without the client reading has happened
+		c.Resume()
+		<-done
+		w.n.Wait()
+		return w.collect()
 	case "adv":
 		w.n.Advance(5 * time.Second)
 		return w.collect()
@@ -323,6 +364,8 @@ var (
 	types      = []string{"gate", "gate", "chat", "chat", "chat", "hall", "room"}
 	groups     = []string{"zoo", "zoo", "zoo", "zoo", "zoo", "zoo", "zoo", "zoo", "nogrp", ""}
 	methods    = []string{"echo", "echo", "echo", "fail", "boom", "slow", "slow", "late", "tell", "tell", "nan", "nosuch", ""}
+	// routes that are not valid UTF-8 (%xx = raw byte): a forwarded envelope can not be serialised
+	badUTF8    = []string{"hall.zoo.ech%ff", "chat.zoo.%c3%28", "hall.%fezoo.echo", "chat.zoo.echo%80", "gate.zoo.ech%ff", "ha%ffll.zoo.echo"}
 	malformed  = []string{"", ".", "..", "...", "gate", "gatezooecho", "gate.zoo", "chat.zoo", "gate.zoo.echo.x", "chat.zoo.echo.x", "a.b.c.d.e", "gate..", "chat..", "..echo", ".zoo.echo", "gate.zoo.", "chat..echo", "gate.zoo.echo.", ".gate.zoo.echo"}
 	bindings   = []string{"chat-1", "chat-1", "chat-2", "chat-2", "chat-7", "chat-9", "gate-1", "hall-1", "-"}
 	specialIDs = []uint64{0, 0, 1, 127, 128, 1<<32 - 1, 16383, 16384}
@@ -339,6 +382,10 @@ type gen struct {
 
 func (g *gen) route() string {
 	r := g.h.R
+	if r.Intn(40) == 0 {
+		g.h.Count("route.badutf8")
+		return badUTF8[r.Intn(len(badUTF8))]
+	}
 	if r.Intn(100) < 15 {
 		g.h.Count("route.malformed")
 		if r.Intn(3) == 0 {
@@ -559,6 +606,12 @@ func TestRun(t *testing.T) {
 			node.Finish(h)
 		}
 		for _, op := range hx.CorpusOps("corpus/C02") {
+			h.Emit(op, w.exec(op))
+		}
+		// a client that pipelines more requests than its session's send queue (9999) holds while it is not reading
+		for _, op := range []string{"reset nc=2", "bind c=1 to=chat-2", "reqs q=1,1,chat.zoo.slow,v1",
+			"flood c=0 n=10080 id0=1 v0=100 route=gate.zoo.echo", "reqs q=0,20000,hall.zoo.echo,v2|1,2,chat.zoo.echo,v3", "flush"} {
+			h.Count("flood")
 			h.Emit(op, w.exec(op))
 		}
 		g := &gen{h: h}
